@@ -26,7 +26,7 @@ PROPS = {
                       "the verticies hash map is modelled as a derived function of the vertex vector"],
         assumptions=["VertexIndex is int32_t: more than 2^31 vertices ever created is not modelled",
                      "IsReachableFrom(x, x) answers 'direct self-loop' in the code; characterised by the model, judged by the oracle only when a self-loop exists"],
-        partial=["hasLoop_statement", "topologicalOrder_statement", "loopGroups_statement"],
+        partial=[],
     ),
     "C09": dict(
         lean_modules=["CCVerif.Properties.C09"],
@@ -34,6 +34,15 @@ PROPS = {
         trusted_base=["EntityGenerator::NewUID (std::random_device) is an input of the model: the harness passes the uid the implementation drew",
                       "formal definitions, texts and analysis results are opaque in this model (the property is about identity and order only)"],
         assumptions=["MergeWith / equations are covered under C12, not here"],
-        partial=["inv_history_statement", "erase_removes_everywhere_statement"],
+        partial=[],
+    ),
+    "C07": dict(
+        lean_modules=["CCVerif.Properties.C07"],
+        harness=["c07_main.cpp"],
+        trusted_base=["the per-constituent analysis is instantiated on a definition fragment (unions of names / empty / unparsable) on which the real auditor is predicted by a one-line rule; outside the fragment only the implementation-level oracle (copy + UpdateState) applies",
+                      "iteration orders of std::unordered_set inside the graph updater are not modelled (not observable through statuses, types, edge sets)"],
+        assumptions=["Load without a following UpdateState leaves statuses UNKNOWN by design; histories call UpdateState after Load",
+                     "Thesaurus (terms / text definitions) is covered by the implementation-level oracle only, under acyclic term references"],
+        partial=["incremental_eq_scratch_statement"],
     ),
 }
